@@ -44,7 +44,7 @@ def mask(ps):
     return sum(2 ** p for p in set(ps))
 
 
-def make_score_class(names, table):
+def make_score_class(names, table, prior_c=Fraction(0)):
     import pandas as pd
     from pgmpy.estimators import StructureScore
 
@@ -52,6 +52,15 @@ def make_score_class(names, table):
         def __init__(self, data):
             super().__init__(data)
             self.calls = 0
+
+        def structure_prior_ratio(self, operation):
+            # a graph prior that pays `prior_c` per arc (BDsScore does this with -log 2): adding an arc changes the log prior by +c,
+            # deleting one by -c, reversing one by 0
+            if operation == "+":
+                return float(prior_c)
+            if operation == "-":
+                return -float(prior_c)
+            return 0
 
         def local_score(self, variable, parents):
             self.calls += 1
@@ -78,7 +87,7 @@ def gen_hc(rng, tier):
     return {"names": names, "n": n, "start": [list(e) for e in start], "scores": rand_table(rng, n), "black": black, "white": white,
             "fixed": fixed, "tabu": rng.choice([0, 0, 2, 100]), "eps": rs(rng.choice([Fraction(0), Fraction(1, 1024), Fraction(1), Fraction(1, 10000)])),
             "max_iter": rng.choice([1, 2, 5, 50, 50]), "max_indegree": rng.choice([None, None, 1, 2]),
-            "use_cache": rng.random() < .5}
+            "use_cache": rng.random() < .5, "prior_c": rs(rng.choice([Fraction(0), Fraction(0), Fraction(-45, 64), Fraction(3, 4), Fraction(-5, 2)]))}
 
 
 def run_hc(case, drv):
@@ -87,13 +96,17 @@ def run_hc(case, drv):
     from pgmpy.base import DAG
     names = [gen.lab(x) for x in case["names"]]
     n = case["n"]
-    score, df = make_score_class(names, case["scores"])
+    prior_c = Fraction(case.get("prior_c", "0"))
+    score, df = make_score_class(names, case["scores"], prior_c)
+    # for the model the per-arc prior is folded into the local score table: local'(v, parents) = local + c * |parents|
+    mscores = case["scores"] if prior_c == 0 else \
+        [[rs(Fraction(x) + prior_c * bin(mk).count("1")) for mk, x in enumerate(row)] for row in case["scores"]]
     start = DAG()
     start.add_nodes_from(names)
     start.add_edges_from([(names[u], names[v]) for u, v in case["start"]])
     opts = dict(black=case["black"], white=case["white"], fixed=case["fixed"], tabu=case["tabu"], eps=case["eps"],
                 max_iter=case["max_iter"], max_indegree=case["max_indegree"])
-    m = drv.call("hc_run", g={"nodes": list(range(n)), "edges": case["start"]}, scores=case["scores"], **opts)
+    m = drv.call("hc_run", g={"nodes": list(range(n)), "edges": case["start"]}, scores=mscores, **opts)
     tags = dict(n=n, tabu=case["tabu"], moves=min(len(m["trace"]), 6), lists=bool(case["black"] or case["white"] or case["fixed"]))
     try:
         res = HillClimbSearch(df, use_cache=case["use_cache"]).estimate(
@@ -129,11 +142,11 @@ def run_hc(case, drv):
             p_old = [u for u, w in startset if w == v]
             if len(p_new) > case["max_indegree"] and len(p_new) > len(p_old):
                 return fail(f"in-degree of node {v} grew to {len(p_new)} > max_indegree {case['max_indegree']}", **tags)
-    sc = Fraction(drv.call("score_total", g={"nodes": list(range(n)), "edges": got}, scores=case["scores"]))
+    sc = Fraction(drv.call("score_total", g={"nodes": list(range(n)), "edges": got}, scores=mscores))      # score + log prior
     if sc < Fraction(m["start_score"]):
         return fail(f"score of the result {float(sc)} is lower than the start graph's {float(Fraction(m['start_score']))}", **tags)
     if case["tabu"] == 0 and len(m["trace"]) < case["max_iter"]:
-        rem = drv.call("hc_run", g={"nodes": list(range(n)), "edges": got}, scores=case["scores"],
+        rem = drv.call("hc_run", g={"nodes": list(range(n)), "edges": got}, scores=mscores,
                        **dict(opts, max_iter=0, fixed=case["fixed"]))["remaining"]
         for op, d in rem:
             if Fraction(d) >= Fraction(case["eps"]) and Fraction(d) > 0:
@@ -193,7 +206,7 @@ def run_bb(case, drv):
 def gen_exh(rng, tier):
     n = rng.randint(2, 4 if tier == "quick" else 4)
     return {"names": gen.node_names(rng, n, rng.choice(["str", "word"])), "n": n, "scores": rand_table(rng, n),
-            "use_cache": rng.random() < .5}
+            "use_cache": rng.random() < .5, "prior_c": rs(rng.choice([Fraction(0), Fraction(0), Fraction(-45, 64), Fraction(3, 4), Fraction(-5, 2)]))}
 
 
 def run_exh(case, drv):
